@@ -2526,7 +2526,8 @@ def translate_one(spec, fdefs, loader=None):
         raise TranslationRefused(name, f'function {spec["func"]} not found in {spec["file"]}')
     a = fd.args
     kwarg_ok = a.kwarg is None or spec.get('kwarg') == a.kwarg.arg
-    if a.vararg or not kwarg_ok or a.kwonlyargs or a.posonlyargs or fd.decorator_list:
+    deco_ok = all(isinstance(d_, ast.Name) and d_.id in spec.get('decorators', ()) for d_ in fd.decorator_list)
+    if a.vararg or not kwarg_ok or a.kwonlyargs or a.posonlyargs or not deco_ok:
         raise TranslationRefused(name, 'signature has decorators, *args, **kwargs or keyword-only parameters')
     pnames = [x.arg for x in a.args]
     if pnames != list(spec['params']):
@@ -3174,6 +3175,36 @@ SPECS_C13 = [
          fallback='(minwave, maxwave, ' + _CEILD.format(a='maxwave - minwave', d='dwave') + ' + 1)'),
 ]
 
+# ---------------------------------------------------------------------- C03: lentil/plane.py segment bookkeeping
+PLN = 'lentil/plane.py'
+SPECS_C03 = [
+    dict(name='plane_slice_2d', file=PLN, func='_plane_slice', params={'mask': ARR(2)},
+         inline=('lentil.helper.boundary_slice',), modules={'lentil.helper': 'lentil/helper.py'},
+         arr_calls={'lentil.boundary': {'mask': ('bnd', T(4))}}, observe='s[0]', rtype=TT(TSL, TSL),
+         doc='_plane_slice(mask) for a 2-d mask: the one slice pair it returns, helper.boundary_slice(mask) inlined '
+             '(pad = (0, 0)), as a function of mask.shape and bnd = lentil.boundary(mask, 0)',
+         fallback="let '(r0, r1, c0, c1) := bnd in ((Z.max (r0 - 0) 0, Z.min (r1 + 0 + 1) (fst mask_shape)), "
+                  '(Z.max (c0 - 0) 0, Z.min (c1 + 0 + 1) (snd mask_shape)))'),
+    dict(name='plane_slice_offset', file='lentil/helper.py', func='slice_offset',
+         params={'slice': SLICEBOX_K, 'shape': T(2)}, rtype=TZn(2),
+         doc='helper.slice_offset(slice, shape) for a pair of slices (the offset Plane.multiply gives each segment)',
+         fallback="let '((r0, r1), (c0, c1)) := slice in (r0 + (r1 - r0) / 2 - fst shape / 2, "
+                  'c0 + (c1 - c0) / 2 - snd shape / 2)'),
+    dict(name='plane_shape_2d', file=PLN, func='Plane.shape', decorators=('property',),
+         params={'self': OBJ(mask=ARR(2))}, rtype=TZn(2),
+         doc='Plane.shape for a 2-d mask', fallback='self_mask_shape'),
+    dict(name='plane_shape_3d', file=PLN, func='Plane.shape', decorators=('property',),
+         params={'self': OBJ(mask=ARR(3))}, rtype=TZn(2),
+         doc='Plane.shape for a 3-d mask (a cube of segment masks): the trailing two dimensions',
+         fallback="let '(k, n, m) := self_mask_shape in (n, m)"),
+    dict(name='plane_size_2d', file=PLN, func='Plane.size', decorators=('property',),
+         params={'self': OBJ(mask=ARR(2))}, rtype=TZ, doc='Plane.size for a 2-d mask', fallback='1'),
+    dict(name='plane_size_3d', file=PLN, func='Plane.size', decorators=('property',),
+         params={'self': OBJ(mask=ARR(3))}, rtype=TZ,
+         doc='Plane.size for a 3-d mask: the number of segment masks',
+         fallback="let '(k, n, m) := self_mask_shape in k"),
+]
+
 # ---------------------------------------------------------------------- C19: the frequency axes of the blur kernels
 CNV = 'lentil/convolvable.py'
 _DETP = 'lentil/detector.py'
@@ -3280,6 +3311,8 @@ SUITES = {
             'proofs': 'theories/Proofs/SpectrumSrcP.v', 'target': 'theories/Properties/C15Src.vo', 'props': 'C15Src'},
     'C13': {'specs': SPECS_C13, 'gen': 'theories/Gen/SpectrumOpSrc.v', 'imports': 'Lib.Base',
             'proofs': 'theories/Proofs/SpectrumOpSrcP.v', 'target': 'theories/Properties/C13Src.vo', 'props': 'C13Src'},
+    'C03': {'specs': SPECS_C03, 'gen': 'theories/Gen/SegmentSrc.v', 'imports': 'Lib.Base',
+            'proofs': 'theories/Proofs/SegmentSrcP.v', 'target': 'theories/Properties/C03Src.vo', 'props': 'C03Src'},
     'C19': {'specs': SPECS_C19, 'gen': 'theories/Gen/BlurSrc.v', 'imports': 'Lib.Base',
             'proofs': 'theories/Proofs/BlurSrcP.v', 'target': 'theories/Properties/C19Src.vo', 'props': 'C19Src'},
     'C17': {'specs': SPECS_C17, 'gen': 'theories/Gen/RescaleSrc.v', 'imports': 'Lib.Base',
@@ -4525,6 +4558,54 @@ for _n, _m, _f, _k in (('pixel_freq_sizes', 'detector', 'pixel', 1), ('jitter_fr
     DRIVER[_n] = _drv_freq_sizes(_m, _f, _k)
     SAMPLER[_n] = lambda rng: ((rng.randint(1, 12), rng.randint(1, 12)),)
     PREF[_n] = lambda ish: min(ish) >= 1
+
+
+# ====================================================================== C03: plane.py segment bookkeeping
+def _plane_with_mask(L, shape):
+    import numpy as np
+    m = np.ones(shape, dtype=int)
+    return L.Plane(amplitude=1, mask=m)
+
+
+def _drv_plane_slice(L, ms, b):
+    x = _mask_array(ms, b)
+    if x is None:
+        return SKIP
+    s = L.plane._plane_slice(x)
+    return (_sl(s[0][0]), _sl(s[0][1]))
+
+
+def _drv_plane_attr(attr):
+    def drv(L, sh):
+        if not (1 <= min(sh) and max(sh) <= 6):
+            return SKIP
+        v = getattr(_plane_with_mask(L, tuple(sh)), attr)
+        return _ints(v) if attr == 'shape' else int(v)
+    return drv
+
+
+MIRROR.update({
+    'plane_slice_2d': lambda ms, b: ((max(b[0], 0), min(b[1] + 1, ms[0])), (max(b[2], 0), min(b[3] + 1, ms[1]))),
+    'plane_slice_offset': MIRROR['slice_offset'],
+    'plane_shape_2d': lambda sh: tuple(sh), 'plane_shape_3d': lambda sh: (sh[1], sh[2]),
+    'plane_size_2d': lambda sh: 1, 'plane_size_3d': lambda sh: sh[0],
+})
+DRIVER.update({'plane_slice_2d': _drv_plane_slice, 'plane_slice_offset': DRIVER['slice_offset'],
+               'plane_shape_2d': _drv_plane_attr('shape'), 'plane_shape_3d': _drv_plane_attr('shape'),
+               'plane_size_2d': _drv_plane_attr('size'), 'plane_size_3d': _drv_plane_attr('size')})
+SAMPLER.update({
+    'plane_slice_2d': _s_mask,
+    'plane_slice_offset': lambda rng: _sample_valid('slice_offset', None, rng),
+    'plane_shape_2d': lambda rng: ((rng.randint(1, 6), rng.randint(1, 6)),),
+    'plane_shape_3d': lambda rng: ((rng.randint(1, 4), rng.randint(1, 6), rng.randint(1, 6)),),
+    'plane_size_2d': lambda rng: ((rng.randint(1, 6), rng.randint(1, 6)),),
+    'plane_size_3d': lambda rng: ((rng.randint(1, 4), rng.randint(1, 6), rng.randint(1, 6)),),
+})
+PREF.update({
+    'plane_slice_2d': PREF['mask_shape'], 'plane_slice_offset': lambda sl, sh: _valid_pref('slice_offset', (sl, sh)),
+    'plane_shape_2d': lambda sh: min(sh) >= 1, 'plane_shape_3d': lambda sh: min(sh) >= 1,
+    'plane_size_2d': lambda sh: min(sh) >= 1, 'plane_size_3d': lambda sh: min(sh) >= 1,
+})
 
 
 # ====================================================================== the check of one layer (called from extra)
